@@ -27,7 +27,7 @@ from vlib import InternalError
 
 PID = "C08"
 
-F_CTL, F_BLOCK, F_BYVAL, F_DECOY, F_CTLCLI, F_NOTRAFFIC, F_CTLCLI2 = 1, 2, 4, 8, 16, 32, 64
+F_CTL, F_BLOCK, F_BYVAL, F_DECOY, F_CTLCLI, F_NOTRAFFIC, F_CTLCLI2, F_BLKWAKE = 1, 2, 4, 8, 16, 32, 64, 128
 CLS = {1: "socket", 2: "accept4", 4: "epoll_create1", 8: "eventfd", 16: "timerfd_create", 32: "connect", 64: "bind",
        128: "listen", 256: "open", 512: "setsockopt", 1024: "so_error", 2048: "fread"}
 EMFILE, ENFILE, ENOMEM, EADDRINUSE, EACCES, ECONNREFUSED, ETIMEDOUT, EADDRNOTAVAIL, ENOPROTOOPT, ECONNABORTED, EISDIR = \
@@ -64,6 +64,8 @@ def scenarios(tier):
             sc.append(S(tp, F_DECOY | F_CTL, errs="first"))
     for tp in (["tcp"] if q else ["ux", "tcp", "tls"]):  # control client attached
         sc.append(S(tp, F_CTL | F_CTLCLI, errs="first"))
+    for tp in (["ux", "tcp"] if q else ["ux", "uxf", "tcp", "btcp"]):  # a blocking accept woken by control sessions before the connection comes
+        sc.append(S(tp, F_CTL | F_BLOCK | F_BLKWAKE, errs="none"))
     for tp in (["ux", "tcp"] if q else ["ux", "uxf", "tcp", "tls", "utls"]):  # two control clients attached when the socket is closed
         sc.append(S(tp, F_CTL | F_CTLCLI | F_CTLCLI2, errs="none" if q else "first"))
     for tp in (["ux", "tcp"] if q else ALL_TP):          # reverse close order
@@ -93,7 +95,7 @@ def describe(s):
     f = s["flags"]
     words = [s["scen"], s["tp"], "k=%d" % s["k"]]
     for bit, w in ((F_CTL, "ctl"), (F_BLOCK, "blocking"), (F_BYVAL, "creds-by-value"), (F_DECOY, "decoy"),
-                   (F_CTLCLI, "ctl-client"), (F_NOTRAFFIC, "no-traffic"), (F_CTLCLI2, "second-ctl-client")):
+                   (F_CTLCLI, "ctl-client"), (F_NOTRAFFIC, "no-traffic"), (F_CTLCLI2, "second-ctl-client"), (F_BLKWAKE, "accept-woken-by-ctl")):
         if f & bit:
             words.append(w)
     if s["fork"]:
